@@ -239,6 +239,13 @@ def run(ctx):
         elif kind < 0.8:
             pr = [x for x in rows if len(x) >= w]
             pat = rng.choice(pr)[:w] if pr and rng.random() < 0.7 else "".join(rng.choice(alphabet) for _ in range(w))
+            if rng.random() < 0.5 and len(alphabet) > 1:
+                # near misses: rows that contain the pattern with exactly one letter changed (at any position, also far from the window's start)
+                rows = list(rows)
+                for _ in range(rng.randint(1, 3)):
+                    q = rng.randrange(w)
+                    miss = pat[:q] + rng.choice([a for a in alphabet if a != pat[q]]) + pat[q + 1:]
+                    rows.append("".join(rng.choice(alphabet) for _ in range(rng.randint(0, 3))) + rng.choice([miss, pat]) + "".join(rng.choice(alphabet) for _ in range(rng.randint(0, 3))))
             use = rng.choice([ename, "ascii"])
             ctx.run_case(case_match, {"fn": "match_string", "enc": use, "rows": rows, "pattern": pat, "select": gen_select(rows, w)})
         elif kind < 0.93:
@@ -262,6 +269,38 @@ def run(ctx):
         got = {l: n for l, n in zip(res.alphabet, np.asarray(res.counts).ravel().tolist()) if n}
         ctx.check("count_kmers", got == dict(exp), "count_kmers/counts:more-than-1e6-windows", "count_kmers over %d windows: total %d, expected %d" % (sum(exp.values()), sum(got.values()), sum(exp.values())),
                   {"nrows": nrows, "len": L, "k": k, "seed": c["seed"], "got_total": sum(got.values()), "expected_total": sum(exp.values())}, ("big", c["seed"]))
+    def case_big_windows(c):
+        """many letters in one call (block-wise implementations): every window function against a vectorised per-row reference"""
+        r = random.Random(c["seed"])
+        w = c["w"]
+        rows = ["".join(r.choices("ACGT", k=r.choice([0, 1, w - 1, w, w + 1, 40, 97, 150]))) for _ in range(c["nrows"])]
+        seqs = bnp.as_encoded_array(rows, encs["ACGTEncoding"]) if c["enc"] != "ascii" else bnp.as_encoded_array(rows)
+        mat = [[r.choice([0.1, 0.25, 0.5, 1.0]) for _ in range(w)] for _ in "ACGT"]
+        logm = np.log(np.array(mat, dtype=float))
+        res = bnp.get_motif_scores(seqs, PWM(logm, "ACGT"))
+        got = res.tolist()
+        idx = {ch: i for i, ch in enumerate("ACGT")}
+        bad = None
+        for ri, (row, g) in enumerate(zip(rows, got)):
+            codes = np.array([idx[ch] for ch in row], dtype=int)
+            nwin = max(0, len(row) - w + 1)
+            e = np.zeros(nwin)
+            for j in range(w):
+                e += logm[codes[j:j + nwin], j] if nwin else 0
+            if len(g) != nwin or (nwin and not np.allclose(np.asarray(g, dtype=float), e, rtol=1e-9, atol=1e-9)):
+                pos = int(np.flatnonzero(~np.isclose(np.asarray(g, dtype=float), e, rtol=1e-9, atol=1e-9))[0]) if len(g) == nwin else -1
+                bad = (ri, pos, sum(map(len, rows[:ri])) + max(pos, 0))
+                break
+        total = sum(map(len, rows))
+        ctx.check("get_motif_scores", bad is None and len(got) == len(rows), "get_motif_scores/values:more-than-65536-letters", "motif scores over %d letters differ from per-window sums at row %r" % (total, bad),
+                  {"seed": c["seed"], "w": w, "nrows": c["nrows"], "letters": total, "first_bad(row,window,flat_offset)": bad}, ("bigw", c["seed"]))
+        pat = rows[max(range(len(rows)), key=lambda i: len(rows[i]))][:w]
+        m = bnp.match_string(seqs, pat).tolist()
+        bad = next((ri for ri, (row, g) in enumerate(zip(rows, m)) if [bool(x) for x in g] != [row[i:i + w] == pat for i in range(max(0, len(row) - w + 1))]), None)
+        ctx.check("match_string", bad is None, "match_string/positions:more-than-65536-letters", "match_string over %d letters differs at row %r" % (total, bad), {"seed": c["seed"], "w": w, "row": bad}, ("bigm", c["seed"]))
+    for j in range(ctx.pick(1, 6)):
+        ctx.run_case(case_big_windows, {"seed": ctx.seed * 131 + ctx.shard * 7 + j, "w": rng.choice([2, 5, 8, 12]), "nrows": 3000 + 137 * ctx.shard, "enc": rng.choice(["ascii", "ACGTEncoding"])})
+
     if ctx.shard < ctx.pick(1, 6):
         ctx.run_case(case_big_count, {"seed": ctx.seed * 31 + ctx.shard, "nrows": 11 + ctx.shard, "len": 100003, "k": 3})
     ctx.floor("judged:get_kmers:count", ctx.pick(50, 2000))
